@@ -162,6 +162,12 @@ REGISTRY = {
         "rule": "paired FASTQ read sets drawn from a small genome on both strands with errors and N, lengths k..3k, qualities at min_qual-1/min_qual/min_qual+1, min-count 1-6 (counts hit c-1, c, c+1 across files and strands), min-qual 0-40, three quality rules, k in {5..63}, both strand modes, self-reverse-complement arms; non-trivial = distinct case lines yielding at least one k-mer",
         "trusted_base": COMMON_TRUST, "assumptions": [EXTERNAL, "exactness is stated under the no-collision hypothesis (ntHash injective on the observed k-mers, no Bloom false positive among them); the collision rate is measured, not proved"],
     },
+    "C20": {
+        "level": "proof", "modules": ["SkaModel.Props.C20"], "gen": [], "cli": [cli.c20_cli],
+        "rule": "parameter points (0<w0<1, c>=1, random and two-peak histograms of 1-120 rows) for likelihood/gradient (code vs model Float instance, and code gradient vs central finite differences of the code's likelihood); cutoff points over table lengths 0..200; generated read pairs (coverage 10-80, error 0-3%, N, both strand modes, k 15..33) through CoverageHistogram and `ska cov`; non-trivial = points compared away from rounding ties / pairs whose fit converged",
+        "trusted_base": COMMON_TRUST + ["hooked private functions (feature verif-hooks): log_likelihood, grad_ll, find_cutoff, fitted state, k-mer multiplicities"],
+        "assumptions": [EXTERNAL, "IEEE-754 evaluation of every f64 expression, libm::lgamma and the argmin BFGS fit are outside the model: formulas are compared numerically with tolerance, the fitted (w0, c) are taken from the code"],
+    },
     "C10": {
         "level": "proof", "modules": ["SkaModel.Props.C10"], "gen": ["C10"],
         "rule": "random histories (length 1-8) over merge, delete, weed, reverse weed, frequency/constant/ambiguity filtering with and without --filter-ambig-as-missing/--ambig-mask, reload; every step through generic_modes with save+load; observers nk, 3 aligns, distance on the final file; non-trivial = distinct histories that ran to the end",
